@@ -670,6 +670,28 @@ Example observe_example :
      Some [FCaller; FReader 3 0; FReader 3 1; FTask 0; FTask 1; FHelper 1]]%Z.
 Proof. reflexivity. Qed.
 
+(* The failed future the observers share is not a task but holds the error a failed task ended with:
+   an ErrorFuture, a batch item or a future given set_error() receive the object as it is, save the
+   traceback it carries (set_error) and restore it before every re-raise, so their observers see
+   what the observers of the task itself see ([every_observer_sees_its_own_chain]). *)
+Theorem shared_future_as_task : forall fk ms b drv os, fk <> KLazy ->
+  shared_observations fk (EOfTask ms b) drv os = observations ms b drv os.
+Proof.
+  intros fk ms b drv os H. unfold shared_observations, observations, observations_with, shared_exn.
+  destruct (task_result 0%Z ms b) as [e|]; [|reflexivity].
+  destruct fk; try reflexivity. contradiction H; reflexivity.
+Qed.
+
+(* ... a lazy Future whose provider raises the object: the provider's frame is on __traceback__ only *)
+Example shared_lazy_example :
+  map (option_map user_frames)
+      (shared_observations KLazy (EOfTask [(MPass, HAwait)] (BRaise 1)) HSync
+                           [[(HAwait, false)]; [(HSync, false); (HAwait, true)]; []])
+  = [Some [FCaller; FReader 0 0; FTask 0; FTask 1; FHelper 1];
+     Some [FReader 1 1; FTask 0; FTask 1; FHelper 1];
+     Some [FCaller; FTask 0; FTask 1; FHelper 1]]%Z.
+Proof. reflexivity. Qed.
+
 (* ========================================================================================== *)
 (** * Part C — creator chain                                                                   *)
 
